@@ -1717,7 +1717,36 @@ pub fn http_method_gate() -> Value {
 					"observed":format!("status {status}, handler ran {ran} time(s)"),"expected": if allowed {"200 and the handler runs once"} else {"415, no handler runs"}});
 			}
 		}
-		json!({"probe":"http_method_gate","disagrees":false,"inputs_tried":tried,"bound":"13 method tokens x one valid JSON call; 6 Content-Type header line sets"})
+		// a server with the optional GET-proxy layer: only GET (proxied) and POST (plain RPC) on the proxied path run a handler
+		{
+			use jsonrpsee_server::middleware::http::ProxyGetRequestLayer;
+			let calls2 = std::sync::Arc::new(AtomicUsize::new(0));
+			let layer = match ProxyGetRequestLayer::new([("/health", "hit")]) { Ok(l) => l, Err(e) => return json!({"probe":"http_method_gate","error":e.to_string()}) };
+			let server2 = jsonrpsee_server::Server::builder().set_http_middleware(tower::ServiceBuilder::new().layer(layer)).build("127.0.0.1:0").await.unwrap();
+			let addr2 = server2.local_addr().unwrap();
+			let mut module2 = RpcModule::new(calls2.clone());
+			module2.register_method("hit", |_, ctx, _| { ctx.fetch_add(1, Ordering::SeqCst); 1u64 }).unwrap();
+			let _handle2 = server2.start(module2);
+			for (m, with_body, allowed) in [("GET", false, true), ("POST", true, true), ("PUT", false, false), ("DELETE", false, false), ("PATCH", false, false), ("HEAD", false, false), ("OPTIONS", false, false), ("PUT", true, false)] {
+				tried += 1;
+				let before = calls2.load(Ordering::SeqCst);
+				let mut sock = match tokio::net::TcpStream::connect(addr2).await { Ok(s) => s, Err(e) => return json!({"probe":"http_method_gate","error":format!("connect: {e}")}) };
+				let req = if with_body { format!("{m} /health HTTP/1.1\r\nHost: {addr2}\r\nContent-Type: application/json\r\nContent-Length: {}\r\nConnection: close\r\n\r\n{body}", body.len()) }
+					else { format!("{m} /health HTTP/1.1\r\nHost: {addr2}\r\nConnection: close\r\n\r\n") };
+				let _ = sock.write_all(req.as_bytes()).await;
+				let mut buf = Vec::new();
+				let _ = tokio::time::timeout(std::time::Duration::from_secs(3), sock.read_to_end(&mut buf)).await;
+				let txt = String::from_utf8_lossy(&buf).to_string();
+				let status: u16 = txt.split_whitespace().nth(1).and_then(|s| s.parse().ok()).unwrap_or(0);
+				let ran = calls2.load(Ordering::SeqCst) - before;
+				let ok = if allowed { status == 200 && ran == 1 } else { status != 200 && ran == 0 };
+				if !ok {
+					return json!({"probe":"http_method_gate","disagrees":true,"input":format!("server with the GET-proxy layer (/health -> hit): {m} /health{}", if with_body {" with a JSON call as body"} else {""}),
+						"observed":format!("status {status}, handler ran {ran} time(s)"),"expected": if allowed {"200 and the handler runs once"} else {"refused, no handler runs"}});
+				}
+			}
+		}
+		json!({"probe":"http_method_gate","disagrees":false,"inputs_tried":tried,"bound":"13 method tokens x one valid JSON call; 6 Content-Type header line sets; 8 method/body combinations on a proxied path"})
 	})
 }
 
